@@ -2,6 +2,7 @@ import RotondaModel.Model.PipeBmp
 import RotondaModel.Proofs.Bmp
 import RotondaModel.Proofs.Rib
 import RotondaModel.Props.C05
+import RotondaModel.Props.C03
 /-!
 Helper lemmas for the composition BMP state machine ∘ RIB (`Model/PipeBmp.lean`):
 the per-session refinement of `Bmp.step` + `emit` to the tracker step `TSess.step`, its lift to
@@ -653,5 +654,161 @@ theorem specRun_entry_intended (vr : Rib.Variant) (hv : vr.perRecordWithdraw = f
     (m : Mui) (h : Rib.History) (hg : annAfterDown mc p m false h = false) :
     (Rib.specRun vr mc p m h).entry = (Rib.specRun (intended vr) mc p m h).entry :=
   entry_intended vr hv mc p m h _ _ false rfl rfl rfl hg
+
+/-! ### Single steps of the composed model, spelled out (C02) -/
+
+theorem set_self {α : Type} (l : List α) (i : Nat) (a : α) (h : l[i]? = some a) : l.set i a = l := by
+  obtain ⟨hi, rfl⟩ := List.getElem?_eq_some_iff.mp h
+  exact List.set_getElem_self hi
+
+theorem getElem?_set_other {α : Type} (l : List α) (i j : Nat) (a : α) (h : j ≠ i) : (l.set i a)[j]? = l[j]? := by
+  rw [List.getElem?_set]
+  simp [Ne.symm h]
+
+theorem stepCore_peerDown (vb : Bmp.Variant) (K1 : Hdr → Key) (st : Bmp.State) (h : Hdr)
+    (hl : st.phase = .dumping ∨ st.phase = .updating) :
+    Bmp.stepCore vb K1 st (.peerDown h) = Bmp.peerDown vb st h := by
+  unfold Bmp.stepCore
+  rcases hl with hl | hl <;> rw [hl]
+
+theorem stepCore_term (vb : Bmp.Variant) (K1 : Hdr → Key) (st : Bmp.State)
+    (hl : st.phase = .dumping ∨ st.phase = .updating) :
+    Bmp.stepCore vb K1 st .term = Bmp.terminate st := by
+  unfold Bmp.stepCore
+  rcases hl with hl | hl <;> rw [hl]
+
+theorem stepCore_idle (vb : Bmp.Variant) (K1 : Hdr → Key) (st : Bmp.State) (h : Hdr)
+    (hl : st.phase = .initiating ∨ st.phase = .terminated) :
+    Bmp.stepCore vb K1 st (.peerDown h) = ⟨st, .invalid, []⟩ := by
+  unfold Bmp.stepCore
+  rcases hl with hl | hl <;> rw [hl]
+
+/-- Peer Down of a header that is up, in either phase in which peers can be up, whatever the pending
+    End-of-RIB bookkeeping: the peer is erased and `Withdraw(its id, None)` reaches the RIB. -/
+theorem World.step_peerDown (v : Variant) (K : Nat → Hdr → Key) (w : World) (i : Nat) (h : Hdr) (s : Sess) (p : Bmp.Peer)
+    (hs : w.sess[i]? = some s) (hl : s.phase = .dumping ∨ s.phase = .updating) (hf : Bmp.findPeer h s.peers = some p) :
+    w.step v K (.msg i (.peerDown h)) =
+      { sess := w.sess.set i ⟨s.phase, Bmp.erasePeer h s.peers⟩, reg := w.reg, next := w.next,
+        rib := w.rib.withdrawForIngress v.rib p.mui none } := by
+  simp only [World.step, hs, Bmp.step_st, Bmp.step_out, Msg.toBmp]
+  rw [stepCore_peerDown v.bmp (K i) (w.view s) h hl]
+  simp [World.view, Bmp.peerDown, hf, emit, Rib.Rib.applyAll, Rib.Rib.apply]
+
+/-- Peer Down of a header that is not up (any phase): nothing at all changes. -/
+theorem World.step_peerDown_reject (v : Variant) (K : Nat → Hdr → Key) (w : World) (i : Nat) (h : Hdr) (s : Sess)
+    (hs : w.sess[i]? = some s) (hf : Bmp.findPeer h s.peers = none) :
+    w.step v K (.msg i (.peerDown h)) = w := by
+  simp only [World.step, hs, Bmp.step_st, Bmp.step_out, Msg.toBmp]
+  have h1 : Bmp.stepCore v.bmp (K i) (w.view s) (.peerDown h) = ⟨w.view s, .invalid, []⟩ := by
+    cases hp : s.phase
+    · exact stepCore_idle _ _ _ _ (Or.inl hp)
+    · rw [stepCore_peerDown _ _ _ _ (Or.inl hp)]; simp [Bmp.peerDown, World.view, hf]
+    · rw [stepCore_peerDown _ _ _ _ (Or.inr hp)]; simp [Bmp.peerDown, World.view, hf]
+    · exact stepCore_idle _ _ _ _ (Or.inr hp)
+  rw [h1]
+  simp [World.view, emit, Rib.Rib.applyAll, set_self _ _ _ hs]
+
+/-- Termination in either live phase: the session ends with an empty peer table and
+    `WithdrawBulk(ids of the up peers)` reaches the RIB (nothing, when no peer is up). -/
+theorem World.step_term (v : Variant) (K : Nat → Hdr → Key) (w : World) (i : Nat) (s : Sess)
+    (hs : w.sess[i]? = some s) (hl : s.phase = .dumping ∨ s.phase = .updating) :
+    w.step v K (.msg i .term) =
+      { sess := w.sess.set i ⟨.terminated, []⟩, reg := w.reg, next := w.next,
+        rib := (s.peers.map (·.mui)).foldl (fun r m => r.withdrawForIngress v.rib m none) w.rib } := by
+  simp only [World.step, hs, Bmp.step_st, Bmp.step_out, Msg.toBmp]
+  rw [stepCore_term v.bmp (K i) (w.view s) hl]
+  unfold Bmp.terminate
+  simp only [World.view]
+  cases hm : s.peers.map (·.mui) with
+  | nil => simp [emit, Rib.Rib.applyAll]
+  | cons a b => simp [emit, Rib.Rib.applyAll, Rib.Rib.apply]
+
+/-! ### C03 at the RIB level for every variant that keeps the global marker
+
+`Props/C03.lean` states `C03_flap_exact` / `C03_partial` for `Rib.asWritten` (`overlapFix = false`). The overlap
+defect has been repaired in the tree since, so the code is `{overlapFix := true, perRecordWithdraw := false}`;
+the two lemmas below are the same statements for every variant with `perRecordWithdraw = false`. -/
+
+theorem down_sticky (vr : Rib.Variant) (hv : vr.perRecordWithdraw = false) (mc : Bool) (p : Rib.Prefix) (m : Mui)
+    (h : Rib.History) (s : Rib.Abs) :
+    (h.foldl (Rib.specEv vr mc p m) s).down = (s.down || h.any (Rib.Ev.downs m)) := by
+  induction h generalizing s with
+  | nil => simp
+  | cons e h ih =>
+    rw [List.foldl_cons, ih, List.any_cons]
+    cases e with
+    | upd m' u => simp only [Rib.specEv, Rib.Ev.downs]; by_cases hm : m' = m <;> simp [hm]
+    | down m' =>
+      simp only [Rib.specEv, Rib.specDown, hv, Rib.Ev.downs]
+      by_cases hm : m' = m <;> simp [hm]
+    | downBulk ms =>
+      simp only [Rib.specEv, Rib.specDown, hv, Rib.Ev.downs, List.contains_eq_mem]
+      by_cases hm : m ∈ ms <;> simp [hm]
+
+theorem flap_exact (vr : Rib.Variant) (hv : vr.perRecordWithdraw = false) (h1 h2 : Rib.History) (mc : Bool)
+    (p : Rib.Prefix) (m : Mui) (a : Rib.AttrId) (ann wd : List Rib.Nlri)
+    (hA : (⟨p, Rib.safiOf mc⟩ : Rib.Nlri) ∈ ann) (hW : (⟨p, Rib.safiOf mc⟩ : Rib.Nlri) ∉ wd)
+    (h2u : h2.all (fun e => !(e.touches mc p m)) = true) :
+    (Rib.run vr (h1 ++ .upd m (.ok a ann wd) :: h2)).entry mc p m
+      = some (if h1.any (Rib.Ev.downs m) then .withdrawn else .active, a) := by
+  rw [Rib.Rib.entry_eq_abs, Rib.abs_after_announce vr h1 h2 mc p m a ann wd hA hW h2u, Rib.abs_run, Rib.specRun,
+    down_sticky vr hv]
+  cases h1.any (Rib.Ev.downs m) <;> simp [Rib.Abs.entry, Rib.setWithdrawn]
+
+/-! ### Single steps of the tracker, spelled out (C03) -/
+
+theorem Track.step_peerDown (K : Nat → Hdr → Key) (T : Track) (i : Nat) (h : Hdr) (s : TSess) (m : Mui)
+    (hs : T.sess[i]? = some s) (hl : s.life = .live) (hu : Bmp.lookupUp h s.up = some m) :
+    T.step K (.msg i (.peerDown h)) =
+      (⟨T.sess.set i ⟨.live, s.up.filter (fun e => e.1 != h)⟩, T.reg, T.next⟩, [.down m]) := by
+  simp [Track.step, hs, TSess.step, hl, hu]
+
+theorem Track.step_peerUp (K : Nat → Hdr → Key) (T : Track) (i : Nat) (h : Hdr) (e c : Bool) (s : TSess) (m : Mui)
+    (hs : T.sess[i]? = some s) (hl : s.life = .live) (hu : Bmp.lookupUp h s.up = none)
+    (hk : Bmp.lookupKey (K i h) T.reg = some m) :
+    T.step K (.msg i (.peerUp h e c)) = (⟨T.sess.set i ⟨.live, s.up ++ [(h, m)]⟩, T.reg, T.next⟩, []) := by
+  simp [Track.step, hs, TSess.step, hl, hu, regFor_of_lookup _ _ _ _ hk]
+
+theorem Track.step_routeMon (K : Nat → Hdr → Key) (T : Track) (i : Nat) (h : Hdr) (t : Bmp.Rm) (u : Rib.Upd) (s : TSess)
+    (m : Mui) (hs : T.sess[i]? = some s) (hl : s.life = .live) (hu : Bmp.lookupUp h s.up = some m)
+    (hd : deliverable t = true) :
+    T.step K (.msg i (.routeMon h t u)) = (T, [.upd m u]) := by
+  simp [Track.step, hs, TSess.step, hl, hu, hd, set_self _ _ _ hs]
+
+theorem Track.step_term (K : Nat → Hdr → Key) (T : Track) (i : Nat) (s : TSess)
+    (hs : T.sess[i]? = some s) (hl : s.life = .live) (hne : s.up ≠ []) :
+    T.step K (.msg i .term) = (⟨T.sess.set i ⟨.dead, []⟩, T.reg, T.next⟩, [.downBulk (s.up.map (·.2))]) := by
+  simp only [Track.step, hs, TSess.step, hl]
+  cases hm : s.up with
+  | nil => exact absurd hm hne
+  | cons a b => simp
+
+/-- Peer Down then Peer Up of header `h` on session `i`. -/
+def flapMsgs (i : Nat) (h : Hdr) (e c : Bool) : History := [.msg i (.peerDown h), .msg i (.peerUp h e c)]
+
+/-- **A returning peer gets its ingress id back, and its first announcement is preceded by a
+    session-level withdrawal of that id.** Peer Down then Peer Up of a header that is up with id `m`:
+    afterwards it is up with id `m` again, the register is unchanged, and the RIB has seen `down m`. -/
+theorem Track.flap_segment (K : Nat → Hdr → Key) (T : Track) (hi : T.Inv K) (i : Nat) (h : Hdr) (e c : Bool)
+    (s : TSess) (m : Mui) (hs : T.sess[i]? = some s) (hl : s.life = .live) (hu : Bmp.lookupUp h s.up = some m) :
+    ∃ s2, (T.runFrom K (flapMsgs i h e c)).sess[i]? = some s2 ∧ s2.life = .live ∧
+      Bmp.lookupUp h s2.up = some m ∧ traceFrom K T (flapMsgs i h e c) = [.down m] ∧
+      (T.runFrom K (flapMsgs i h e c)).reg = T.reg := by
+  unfold flapMsgs
+  have hlt : i < T.sess.length := (List.getElem?_eq_some_iff.mp hs).1
+  have hk : Bmp.lookupKey (K i h) T.reg = some m := hi i s hs (h, m) (lookupUp_mem hu)
+  have h1 := Track.step_peerDown K T i h s m hs hl hu
+  have hs1 : (T.step K (.msg i (.peerDown h))).1.sess[i]? = some ⟨.live, s.up.filter (fun e => e.1 != h)⟩ := by
+    rw [h1]; simp [hlt]
+  have h2 := Track.step_peerUp K (T.step K (.msg i (.peerDown h))).1 i h e c _ m hs1 rfl
+    (lookupUp_filter_self h s.up) (by rw [h1]; exact hk)
+  refine ⟨⟨.live, s.up.filter (fun e => e.1 != h) ++ [(h, m)]⟩, ?_, rfl, ?_, ?_, ?_⟩
+  · simp only [Track.runFrom, List.foldl_cons, List.foldl_nil, h2]
+    rw [h1]; simp [hlt]
+  · exact lookupUp_append_new h m _ (lookupUp_filter_self h s.up)
+  · simp only [traceFrom, h2, List.append_nil]
+    rw [h1]
+  · simp only [Track.runFrom, List.foldl_cons, List.foldl_nil, h2]
+    rw [h1]
 
 end Rotonda.PipeBmp
